@@ -16,5 +16,5 @@ for id in "$@"; do
   out=$(VERIF_REPO=$wt VERIF_NOSHRINK=1 $scr/run.sh $id ${SEED_TIER:-quick} 2>&1); rc=$?
   case $rc in 1) r=DETECTED;; 0) r=missed;; *) r="harness-error($rc)";; esac
   echo "$sid $id $r"
-  [ -n "$SEED_VERBOSE" ] && echo "$out" | grep -E "VIOLATION|harness|worker" | cut -c1-600 | head -${SEED_VERBOSE}
+  [ -n "$SEED_VERBOSE" ] && echo "$out" | grep -E "violation: sig|HARNESS|worker [0-9]" | cut -c1-600 | head -${SEED_VERBOSE}
 done
